@@ -184,6 +184,22 @@ impl MatcherIO<'_> {
         self.quit = true;
     }
 
+    /// Standard output cannot be written (any more): nothing further can be
+    /// reported there, so the run ends, with a non-zero exit status.  A closed
+    /// pipe is the reader's way of saying it has seen enough and is not
+    /// diagnosed.
+    pub fn standard_output_failed(&mut self, error: &std::io::Error) {
+        use std::io::Write;
+        if error.kind() != std::io::ErrorKind::BrokenPipe {
+            let _ = writeln!(
+                std::io::stderr(),
+                "Error writing to standard output: {error}"
+            );
+        }
+        self.exit_code = 1;
+        self.quit = true;
+    }
+
     #[must_use]
     pub fn should_quit(&self) -> bool {
         self.quit
